@@ -80,7 +80,9 @@ def main():
         used = [x for x in ns_ids if rng.random() < 0.6]
         rng.shuffle(used)
         fw = {x: f'feat_{x}' for x in ns_ids}
-        header = ['label'] + [fw[x] for x in ns_ids]
+        # the header differs from call to call (column order, extra columns): every line is laid out by ITS header
+        order_ = list(rng.permutation(ns_ids))
+        header = ['label'] + [fw[x] for x in order_] + (['extra_col'] if rng.random() < 0.3 else [])
         toks = {}
         parts = []
         for x in used:
@@ -90,12 +92,28 @@ def main():
         label = str(rng.choice(['1', '-1', '0']))
         line = label + (' ' + str(rng.choice(['0.5', "'tag"])) if rng.random() < 0.3 else '') + ' |' + '|'.join(parts) + '\n'
         got = CU.generic_line_parser(line, None, SimpleNamespace(data_source='ob-vw'), fw, header)
-        exp = [label] + [('-'.join(toks[x])[2:] if x in toks else None) for x in ns_ids]
+        exp = [label] + [('-'.join(toks[x])[2:] if x in toks else None) for x in order_] + ([None] if len(header) > len(order_) + 1 else [])
         h.record(('vw', line), len(used) > 1, sample={'line': line})
         if len(used) == 0:
             continue
         if got != exp:
             h.fail('parse_ob_line_vw.namespace_values_in_their_columns', {'line': line, 'header': header}, f'parsed {got}, expected {exp}')
+    # ---- VW: one header list object that the caller changes in place between two data sets (column appended, two columns swapped)
+    hdr = ['label', 'feat_a', 'feat_b']
+    fw2 = {'a': 'feat_a', 'b': 'feat_b', 'c': 'feat_c'}
+    for stage in range(3):
+        line = '1 |a a_v1 a_v2 |b b_w |c c_z\n'
+        vals = {'feat_a': 'v1-a_v2', 'feat_b': 'w', 'feat_c': 'z'}
+        got = CU.generic_line_parser(line, None, SimpleNamespace(data_source='ob-vw'), fw2, hdr)
+        exp = ['1'] + [vals.get(c) for c in hdr[1:]]
+        h.record(('vw-inplace', stage), True, sample={'line': line, 'header': list(hdr)})
+        if got != exp:
+            h.fail('parse_ob_line_vw.namespace_values_in_their_columns', {'line': line, 'header': list(hdr), 'note': 'same header list object, changed in place since the previous call'},
+                   f'parsed {got}, expected {exp}')
+        if stage == 0:
+            hdr.append('feat_c')
+        else:
+            hdr[1], hdr[2] = hdr[2], hdr[1]
     # ---- namespace map
     for _ in range(40 if quick else 400):
         rows = []
